@@ -148,11 +148,13 @@ def verify_contract(repo: str, con: Any, contracts_by_target: dict[str, Any], mo
                 etype = outcome[1]
                 matched = [name for name in raises if interp.exc_is(etype, name)]
                 may = [name for name in may_raise if interp.exc_is(etype, name)]
+                # the conditions under which a call raises speak about the state on entry
+                entry = dict(old.fields)
                 if matched:
-                    cond = interp.truth(interp.eval_named(raises[matched[0]], args))
+                    cond = interp.truth(interp.eval_named(raises[matched[0]], entry))
                     ctx.prove(cond, "raises-only-if", outcome[2], etype)
                 elif may:
-                    cond = interp.truth(interp.eval_named(may_raise[may[0]], args))
+                    cond = interp.truth(interp.eval_named(may_raise[may[0]], entry))
                     ctx.prove(cond, "raises-only-if", outcome[2], etype)
                 else:
                     ctx.prove(False, "no-exception", outcome[2], f"{etype}:{outcome[3]}")
@@ -166,7 +168,7 @@ def verify_contract(repo: str, con: Any, contracts_by_target: dict[str, Any], mo
                 outcomes[f"raise {etype}"] = outcomes.get(f"raise {etype}", 0) + 1
             else:
                 for etype, cond_fn in raises.items():
-                    cond = interp.truth(interp.eval_named(cond_fn, args))
+                    cond = interp.truth(interp.eval_named(cond_fn, dict(old.fields)))
                     ctx.prove(interp.not_(cond), "raises-if", def_line, etype)
                 values = dict(args)
                 values["result"] = outcome[1]
